@@ -26,7 +26,7 @@ ASSUMPTIONS = [
 ]
 NSHARDS = {"quick": 16, "thorough": 16}
 N_CASES = {"quick": 1200, "thorough": 90000}   # per shard
-REQUIRE = {"whatif_reruns_of_an_edited_segment": 100, "outcome:oom": 200, "outcome:ok": 200, "zero_tick_operators": 50, "multi_segment_operators": 100,
+REQUIRE = {"whatif_reruns_of_an_edited_segment": 100, "resize:remaining_operators_resumed_with_another_cpu_count": 300, "resize:resumed_container_completed": 150, "outcome:oom": 200, "outcome:ok": 200, "zero_tick_operators": 50, "multi_segment_operators": 100,
            "compared_ticks": 20000, "ambiguous_cases_resolved": 5, "retried_containers": 300, "retries_succeeded": 100, "neighbour_cases:cancel": 300, "neighbour_cases:random": 100, "alloc_class:long-lived": 8, "alloc_class:churn": 3}
 for _l in LAWS:
     REQUIRE["law:" + _l] = 50
@@ -190,6 +190,60 @@ class RetryDriver:
         return {"sus": [], "asg": []}
 
 
+def resize_case(rng):
+    """A container of several operators is suspended at an operator boundary; once written out, the
+    remaining operators - same objects - are assigned again with ANOTHER CPU count (a scheduler that
+    resizes on resume).  Their tick counts have to follow the new CPU count."""
+    for _ in range(20):
+        c = make_case(rng, 0)
+        if len(c["pipelines"][0]["ops"]) >= 2:
+            break
+    else:
+        return c
+    ops = c["pipelines"][0]["ops"]
+    for o in ops:                       # make sure the CPU count matters somewhere after the boundary
+        for sg in o["segs"]:
+            if sg["law"] == "const" and rng.random() < 0.7:
+                sg["law"] = rng.choice(["linear3", "sqrt", "squared", "linear7"]) if "linear3" in LAWS else rng.choice([l for l in LAWS if l != "const"])
+    peak = max(gen.ops_peak(ops), 0.001)
+    a = c["steps"][0]["asg"][0]
+    a["ram"] = peak * rng.choice([1.0, 1.5, 4.0])
+    a["ops"] = [[0, i] for i in range(len(ops))]
+    cpu2 = rng.choice([x for x in CPUS if x != a["cpu"]])
+    c["world"]["ram"] = max(c["world"]["ram"], a["ram"] * 4, 1.0)
+    c["world"]["cpus"] = 192
+    c["kind"] = "resize"
+    c["resize"] = {"cpu": cpu2, "after": rng.randrange(1, len(ops))}
+    c["_adaptive_pending"] = True
+    return c
+
+
+class ResizeDriver:
+    def __init__(self, case):
+        self.first = case["steps"][0]
+        self.rz = case["resize"]
+        self.asked = False
+        self.resumed = False
+
+    def __call__(self, w, i):
+        if i == 0:
+            return self.first
+        if i > 6000 or not w.containers:
+            return None
+        mc = w.containers[0]
+        if not self.asked and mc.status == "active" and mc.boundary and mc.ncomp >= self.rz["after"]:
+            self.asked = True
+            return {"sus": [{"pool": 0, "c": 0}], "asg": []}
+        if mc.status == "suspended" and not self.resumed:
+            keys = [k for k in mc.keys if w.mstate[k] == "pending"]
+            if keys:
+                self.resumed = True
+                return {"sus": [], "asg": [{"pool": 0, "cpu": self.rz["cpu"], "ram": mc.ram, "ops": [list(k) for k in keys]}]}
+        if not any(w.active[k] or w.suspending[k] for k in range(w.npools)):
+            return None
+        return {"sus": [], "asg": []}
+
+
 def long_container_case(rng):
     """One container that lives for thousands of ticks (many operators and segments, long phases)."""
     tps = rng.choice([10, 100, 1000])
@@ -249,6 +303,8 @@ def cases(tier, seed, shard, nshards):
         yield make_case(rng, i)
         if i % 6 == 0:
             yield retry_case(rng)
+        if i % 8 == 3:
+            yield resize_case(rng)
         if i % 5 == 0:
             yield neighbour_case(rng)
         if i % 10 == 0:
@@ -317,6 +373,21 @@ def run_case(case, mon):
             mon.count("retried_containers")
             if w.containers[1].status == "ok":
                 mon.count("retries_succeeded")
+    elif case.get("kind") == "resize" and case.get("_adaptive_pending"):
+        case.pop("_adaptive_pending")
+        first_step = case["steps"][0]
+
+        def _drv():
+            case["steps"] = [first_step]
+            return ResizeDriver(case)
+        # float-boundary tick counts are explored like in scripted cases, each resolution with a fresh driver
+        w, probs, status = run_with_choices(case, driver_factory=_drv, max_steps=6100)
+        if w.events.get("suspend_accepted"):
+            mon.count("resize:suspended_at_an_operator_boundary")
+        if len(w.containers) > 1:
+            mon.count("resize:remaining_operators_resumed_with_another_cpu_count")
+            if w.containers[1].status == "ok":
+                mon.count("resize:resumed_container_completed")
     else:
         w, probs, status = run_with_choices(case)
     if status == "skipped-ambiguous":
